@@ -602,8 +602,10 @@ def rule_clamp(ctx):
     A = anchors.replace_source(f)
     tr = anchors.trait_path(f, 'Source')
     bodies = [b for b in f.body_list if b.promoted is None and b.d['kind'] != 'Closure' and b.d.get('impl_adt') == A['adt']
-              and b.d.get('impl_trait') == tr and b.name in ('source', 'rope')]
-    if len(bodies) != 2:
+              and b.d.get('impl_trait') == tr and b.name in ('source', 'rope', 'buffer', 'size', 'to_writer')]
+    # round 10: every content view is in scope (a view that re-implements the splice loop instead of deriving from source() slices the
+    # inner text itself); source() and rope() are the two that do so today
+    if not {'source', 'rope'} <= {b.name for b in bodies}:
         raise anchors.AnchorMissing('ReplaceSource::source / rope: %d' % len(bodies))
     for b in bodies:
         for pt, t in b.calls():
@@ -611,7 +613,7 @@ def rule_clamp(ctx):
             if not c or len(t['args']) < 2:
                 continue
             n = c['name']
-            is_slice = (n == 'index' and ('str' in t['arg_tys'][0] or 'String' in t['arg_tys'][0]) and 'Range' in t['arg_tys'][1]) or \
+            is_slice = (n == 'index' and any(k in t['arg_tys'][0] for k in ('str', 'String', '[u8]', 'Vec<u8>')) and 'Range' in t['arg_tys'][1]) or \
                        (n in ('byte_slice', 'get_byte_slice', 'byte_slice_unchecked', 'get') and 'Range' in t['arg_tys'][1])
             if not is_slice:
                 continue
